@@ -1,5 +1,4 @@
 #!/bin/bash
-# dev helper: build harness + driver, run a property's cases, summarise disagreements
 set -e
 export GOFLAGS=-mod=mod GOPROXY=off GOSUMDB=off GOTOOLCHAIN=local ATIME_DISABLE=true
 P=$1; T=${2:-quick}; S=${3:-1}
@@ -8,4 +7,4 @@ mkdir -p /verif/build/ml && cp /verif/coq/extracted.ml /verif/coq/extracted.mli 
 cd /verif/harness && go build -tags verif -o /verif/build/hx ./cmd/hx
 cd /verif && ./build/hx run $P $T $S $(ls corpus/$P/*.case 2>/dev/null) > /tmp/try.lines
 python3 /verif/tools/pdrv.py /tmp/try.lines /tmp/try.out
-python3 /verif/tools/summ.py /tmp/try.lines /tmp/try.out ${4:-3}
+python3 /verif/tools/summ2.py /tmp/try.lines /tmp/try.out ${4:-2}
